@@ -74,7 +74,22 @@ Theorem C09_go_replace_handlers_are_the_model :
   go_ReplaceDepositForBurn_ok.
 Proof. split; [exact go_ReplaceMessage_ok_proof|]. exact go_ReplaceDepositForBurn_ok_proof. Qed.
 
+(* ... and so does any number of them: a history made of replacement attempts only (successful or not, by anyone,
+   of any original) leaves store and ledger exactly as they were. *)
+Theorem C09_any_number_of_replacements_changes_nothing : forall e h c,
+  (forall s, In s h -> match snd s with ReplaceMessage _ _ _ _ _ | ReplaceDepositForBurn _ _ _ _ _ => True | _ => False end) ->
+  run e c h = c.
+Proof.
+  intros e h. induction h as [|s h IH]; intros c A; cbn [run fold_left]; [reflexivity|].
+  fold (run e (run_step e c s) h). unfold run_step.
+  destruct (C09_replacements_change_nothing e c (fst s) (snd s) (A s (or_introl eq_refl))) as (_&L&S).
+  assert (r_chain (deliver e c (fst s) (snd s)) = c) as ->.
+  { destruct (r_chain (deliver e c (fst s) (snd s))), c. cbn in L, S. now subst. }
+  apply IH. intros s' I. apply A. now right.
+Qed.
+
 Print Assumptions C09_replace_message_only_if_and_output.
 Print Assumptions C09_replace_deposit_only_if_and_output.
 Print Assumptions C09_replacements_change_nothing.
 Print Assumptions C09_go_replace_handlers_are_the_model.
+Print Assumptions C09_any_number_of_replacements_changes_nothing.
